@@ -16,7 +16,7 @@ META = {
     "level": "exploration",
     "engine": "E3 reference model through the real load() (entry-point plugins, construction log)",
     "rule": (
-        "seeded random YAML documents: pipelines of 1-8 elements, each independently a registered !Tag in "
+        "seeded random YAML documents: pipelines of 1-8 elements (and two of 1200-1500 elements per run), each independently a registered !Tag in "
         "mapping / sequence / bare form or a legacy __type__ mapping with keyword items (naming its class directly, through a namespace class, or by a classmethod constructor); argument values: "
         "scalars of every YAML type (plain, quoted, ints in several bases, floats, inf, bools, null, dates), "
         "nested lists and mappings (also keyed by numbers, booleans, null), anchors/aliases, merge keys (`<<`) whose values the element partly overrides, nested lazily and eagerly evaluated tags, helper objects written "
@@ -157,10 +157,14 @@ def element_text(e, placeholder=False):
 
 def gen_case(rnd, spec):
     n = rnd.choice([1, 2, 2, 3, 3, 4, 5, 6, 8])
+    if spec.get("case_index") == 0 and spec.get("shard") in (0, 1):
+        n = rnd.choice([1200, 1500])  # one very long pipeline per run: far beyond Python's recursion limit
     elements = [gen_element(rnd, i, n) for i in range(n)]
     fail_at = None
     if rnd.random() < 0.33:
         fail_at = rnd.randint(1, n)  # the k-th construction (from the tail) fails
+    if n >= 1000:
+        fail_at = None
     return {
         "elements": elements,
         "fail_at": fail_at,
@@ -313,6 +317,8 @@ def execute(case, result):
                     problems.append("construction %d built a %s, expected %s" % (j, type(obj).__name__, want))
         return [(p + "\n" + text, None) for p in problems[:3]]
     result.count("documents_valid")
+    if n >= 1000:
+        result.count("pipelines_of_more_than_1000_elements")
     if err is not None:
         return [("valid document rejected: %r\n%s" % (err, text), None)]
     pipeline = None
@@ -406,6 +412,6 @@ def run_shard(spec):
 def finish(total, tier):
     for name in ("documents_valid", "documents_with_failing_constructor", "elements_tag_map", "elements_tag_list", "elements_tag_bare",
                  "elements_type_map", "nested_eager_tags_checked", "tails_built_while_reading", "pipelines_compared_with_rshift",
-                 "extra_sections_digested", "elements_with_nested_type_helper", "failing_constructor_raising_KeyError", "elements_with_merge_key", "elements_whose_truth_value_is_false", "type_elements_named_below_a_class"):
+                 "extra_sections_digested", "elements_with_nested_type_helper", "failing_constructor_raising_KeyError", "elements_with_merge_key", "elements_whose_truth_value_is_false", "type_elements_named_below_a_class", "pipelines_of_more_than_1000_elements"):
         if not total.counters.get(name) and not total.violations:
             total.inconc("monitor never observed: " + name)
